@@ -16,6 +16,7 @@ import (
 	"time"
 
 	"ergo.services/ergo/gen"
+	"ergo.services/ergo/lib"
 	"ergo.services/ergo/node"
 
 	"verif/harness/gated"
@@ -169,7 +170,70 @@ func withTimeout(d time.Duration, f func() error) (error, bool) {
 	}
 }
 
+// pgate parks the count-th goroutine that arrives at a yield point of node/application.go for the given application
+// (app.store: between the spawn of a member and its entry into the group; app.term.*: inside application.terminate)
+type pgate struct {
+	point   string
+	app     gen.Atom
+	count   int
+	parked  chan struct{}
+	release chan struct{}
+}
+
+var (
+	pgMu  sync.Mutex
+	pgAll []*pgate
+)
+
+func arm(point string, app gen.Atom, count int) *pgate {
+	g := &pgate{point: point, app: app, count: count, parked: make(chan struct{}), release: make(chan struct{})}
+	pgMu.Lock()
+	pgAll = append(pgAll, g)
+	pgMu.Unlock()
+	return g
+}
+
+func (g *pgate) disarm() {
+	pgMu.Lock()
+	for i, x := range pgAll {
+		if x == g {
+			pgAll = append(pgAll[:i], pgAll[i+1:]...)
+			break
+		}
+	}
+	pgMu.Unlock()
+}
+
+func storeHook(point string, subject any) {
+	name, ok := subject.(gen.Atom)
+	if !ok {
+		return
+	}
+	pgMu.Lock()
+	var hit *pgate
+	for i, g := range pgAll {
+		if g.point == point && g.app == name {
+			g.count--
+			if g.count == 0 {
+				hit = g
+				pgAll = append(pgAll[:i], pgAll[i+1:]...)
+			}
+			break
+		}
+	}
+	pgMu.Unlock()
+	if hit == nil {
+		return
+	}
+	close(hit.parked)
+	select {
+	case <-hit.release:
+	case <-time.After(3 * time.Second):
+	}
+}
+
 func (r *Runner) Run(h *History) ([]Line, bool, error) {
+	lib.SetVerifHook(storeHook)
 	w := &gated.World{}
 	suffix := fmt.Sprintf("_%d_%d", os.Getpid()%1000, h.ID)
 	var pmu sync.Mutex
@@ -333,6 +397,106 @@ func (r *Runner) Run(h *History) ([]Line, bool, error) {
 			pmu.Lock()
 			firstStart = false
 			pmu.Unlock()
+		case "startdie":
+			// member I dies in the window between its spawn and its entry into the application's group; the outcome is that of a
+			// start followed by that death
+			sg := arm("app.store", appName, op.I)
+			pk, rl := sg.parked, sg.release
+			done := make(chan error, 1)
+			go func() { done <- r.Node.ApplicationStart(appName, gen.ApplicationOptions{}) }()
+			select {
+			case <-pk:
+				ln.Held = true
+				if p, ok := snapshot()[op.I]; ok {
+					r.Node.Kill(p)
+					for i := 0; i < 2000; i++ {
+						if _, e := r.Node.ProcessInfo(p); e != nil {
+							break
+						}
+						time.Sleep(100 * time.Microsecond)
+					}
+				}
+			case <-time.After(500 * time.Millisecond):
+			}
+			sg.disarm()
+			close(rl)
+			select {
+			case err = <-done:
+			case <-time.After(3 * time.Second):
+				hg = true
+			}
+			pmu.Lock()
+			firstStart = false
+			pmu.Unlock()
+		case "termrace":
+			// member I ends (Reason) and its termination is kept right before it looks whether it was the last one; member J is told to
+			// exit meanwhile (by the application in Permanent / Transient mode, else by us) and is kept right after it has left the
+			// group; then the first goes on, then the second: two terminations of one run, each finding the group empty
+			{
+				cur := snapshot()
+				pi, oki := cur[op.I]
+				pj, okj := cur[op.J]
+				if oki && okj && op.I != op.J {
+					ga := arm("app.term.last", appName, 1)
+					gb := arm("app.term.mode", appName, 2)
+					inject(r.Node, pi, op.Reason)
+					select {
+					case <-ga.parked:
+						ln.Held = true
+						r.Node.SendExit(pj, gen.TerminateReasonShutdown)
+						select {
+						case <-gb.parked:
+						case <-time.After(300 * time.Millisecond):
+						}
+					case <-time.After(300 * time.Millisecond):
+					}
+					ga.disarm()
+					close(ga.release)
+					time.Sleep(5 * time.Millisecond)
+					gb.disarm()
+					close(gb.release)
+				}
+			}
+		case "startstop":
+			// ApplicationStopForce (Reason = "force") or ApplicationStop arrives while the start is between the spawn of member I and
+			// its entry into the group
+			{
+				sg := arm("app.store", appName, op.I)
+				pk, rl := sg.parked, sg.release
+				done := make(chan error, 1)
+				go func() { done <- r.Node.ApplicationStart(appName, gen.ApplicationOptions{}) }()
+				stopDone := make(chan error, 1)
+				select {
+				case <-pk:
+					ln.Held = true
+					go func() {
+						if op.Reason == "force" {
+							stopDone <- r.Node.ApplicationStopForce(appName)
+						} else {
+							stopDone <- r.Node.ApplicationStopWithTimeout(appName, 2*time.Second)
+						}
+					}()
+					time.Sleep(5 * time.Millisecond)
+				case <-time.After(500 * time.Millisecond):
+					stopDone <- errors.New("not tried")
+				}
+				sg.disarm()
+				close(rl)
+				select {
+				case err = <-done:
+				case <-time.After(3 * time.Second):
+					hg = true
+				}
+				select {
+				case e2 := <-stopDone:
+					ln.Res2 = resName(e2)
+				case <-time.After(4 * time.Second):
+					ln.Res2 = "hung"
+				}
+				pmu.Lock()
+				firstStart = false
+				pmu.Unlock()
+			}
 		case "stop":
 			err, hg = withTimeout(8*time.Second, func() error { return r.Node.ApplicationStop(appName) })
 		case "stopforce":
